@@ -7,8 +7,8 @@ class C07(Prop):
     id = "C07"
     title = "NAS ciphering and integrity algorithms are the 3GPP 128-NEA/NIA algorithms"
     lean_module = "Stgutg.Props.C07"
-    gen = ["tables", "pure-secalg", "pure-selftest-sec"]
-    extra_modules = ["Stgutg.Proofs.GenTieSecAlg", "Stgutg.Gen.PureSelftestSec"]
+    gen = ["tables", "pure-secalg", "pure-secnas", "pure-selftest-sec"]
+    extra_modules = ["Stgutg.Proofs.GenTieSecAlg", "Stgutg.Proofs.GenTieSecNas", "Stgutg.Gen.PureSelftestSec", "Stgutg.Gen.PureSelftestSecB"]
     theorems = [
         "Stgutg.Props.C07.sr_table",
         "Stgutg.Props.C07.sq_table",
@@ -38,6 +38,11 @@ class C07(Prop):
         "Stgutg.Proofs.GenTie.SecAlg.GenerateKeystream_eq",
         "Stgutg.Proofs.GenTie.SecAlg.GenerateKeystream_nonpos",
         "Stgutg.Proofs.GenTie.SecAlg.GenerateKeystream_short",
+        "Stgutg.Proofs.GenTie.SecNas.mulx_eq",
+        "Stgutg.Proofs.GenTie.SecNas.mulxPow_eq",
+        "Stgutg.Proofs.GenTie.SecNas.mul_eq",
+        "Stgutg.Proofs.GenTie.SecNas.NIA1_eq",
+        "Stgutg.Proofs.GenTie.SecNas.NEA1_eq",
     ]
     domains = [Domain("sec-alg", 2000, 100000)]
     rule = ("sec-alg: NASEncrypt/NASMacCalculate at every length 1..80 (thorough 1..600) x alg x dir x bearer{0,1,31} "
@@ -54,17 +59,29 @@ class C07(Prop):
                     "lfsrInitialisationMode_eq, lfsrKeystreamMode_eq for EVERY state, InitSnow3g_eq for every key and IV, GenerateKeystream_eq for every state, every "
                     "count n and every output slice of at least n words [the n words of the model, the rest of the slice untouched], GenerateKeystream_short "
                     "[a shorter slice: panic], GenerateKeystream_nonpos [n <= 0: nothing written]; toGen_surj: every value of the Go type State is covered), so a "
-                    "change of the Go text changes the generated definition and the theorem stops checking, whatever input would show it. NOT tied by translation: "
-                    "security.go (NEA1/NIA1/NEA2/NIA2, NASEncrypt, NASMacCalculate, mul/mulx/mulxPow on uint64) — still tied by the differential domain sec-alg only. "
+                    "change of the Go text changes the generated definition and the theorem stops checking, whatever input would show it. The same grammar (gen pure-secnas -> "
+                    "Gen/PureSecNas.lean, importing the SNOW 3G definitions above) translates NEA1, NIA1 and the three GF(2^64) helpers of NIA1 in "
+                    "src/free5gclib/nas/security/security.go: mulx, mulxPow, mul = Model.NasAlg.mulx64 / mulxPow64 / mul64 for all arguments (Proofs/GenTieSecNas.lean: "
+                    "mulx_eq, mulxPow_eq, mul_eq); NIA1_eq: for every 16-octet key (the Go type is [16]byte), COUNT, BEARER, DIRECTION and every message of fewer than "
+                    "2^59 octets incl. the empty one (a panic in both), NIA1(ik, count, bearer, direction, msg, 8*len(msg)) = Model.NasAlg.nia1, the err result nil; "
+                    "NEA1_eq: for every 16-octet key, COUNT, BEARER, DIRECTION and every message of fewer than 2^28 octets (every length: whole words, 1..3 trailing "
+                    "octets with the masked last keystream word, the empty message), NEA1(ck, count, bearer, direction, ibs, 8*len(ibs)) = Model.NasAlg.nea1, err nil; "
+                    "the length arguments are the ones the only callers NASMacCalculate / NASEncrypt pass, the hand models have no other. NOT tied by translation: "
+                    "NEA2, NIA2, NASEncrypt, NASMacCalculate of security.go (crypto/aes, cipher.NewCTR, aead/cmac, logger, fmt.Errorf, the switch on the algorithm id, "
+                    "the nil test) — still tied by the differential domain sec-alg only. "
                     "Trusted here instead of sampling: the word-machine grammar (header of pure_secalg.go; anything else fails closed with file:line) and its runtime "
                     "Gen/PureRt.lean + Gen/PureRtSec.lean: [N]T arrays are values carried as lists of their N elements (x[i] is checked against the length whatever "
                     "the index); the object behind a pointer receiver / a `new` local has exactly one name inside a function (pointers are never copied, compared or "
                     "passed) and is returned as a value with the results, nothing being said about it after a panic; a package-level table is a constant BECAUSE it is "
                     "unexported and every use in its package is a read of t[i] (go/types Uses); a slice parameter written through is an OUT-PARAMETER returned with the "
                     "results, ASSUMED not to share storage with another argument; counted loops and self-recursion run on FUEL that is visible in the output (outliving "
-                    "it is `hang`, which no theorem equates with a model value). The grammar and runtime are checked against the Go compiler on every run: gen "
-                    "pure-selftest-sec translates harness/cmd/gen/pureselftest/sec.go (every construct) and writes the outcomes of EXECUTING the compiled functions beside "
-                    "the translation (Gen/PureSelftestSec.lean: about 950 calls, about 100 of them panics, each with the object behind the receiver and the "
+                    "it is `hang`, which no theorem equates with a model value); binary.BigEndian.Uint32 / Uint64 / PutUint32 panic on fewer than 4 / 8 / 4 octets; x[a:b] is "
+                    "accepted on ARRAYS only (cap = len = N, so the bounds are checked as Go checks them), x[a:] also on slices, both only where the octets are read on "
+                    "the spot (operand of BigEndian.UintN, source of copy); copy and PutUint32 write only to a slice that holds make(...) only; an error result is only "
+                    "ever nil; a loop counter declared before its loop (`for i = a; ...`) is a result of the loop. The grammar and runtime are checked against the Go compiler on every run: gen "
+                    "pure-selftest-sec translates harness/cmd/gen/pureselftest/sec.go (every construct; SecMac as a second group importing the first) and writes the "
+                    "outcomes of EXECUTING the compiled functions beside the translation (Gen/PureSelftestSec.lean + PureSelftestSecB.lean: 1230 calls, 483 of them "
+                    "panics, each non-panic outcome with the object behind the receiver and the "
                     "out-parameter as the call left them, as kernel-checked equalities)"]
     level_text = ("Theorems for all keys/COUNT/BEARER/DIRECTION and all message lengths: the code-shaped models of NEA1/NIA1 "
                   "(incl. SNOW 3G with its tables regenerated from the source) equal 128-EEA1/EIA1, NEA2/NIA2 equal 128-EEA2/EIA2 "
